@@ -84,6 +84,12 @@ def main():
             scale = max(abs(r[k]), 1e-300)
             if not (abs(d[k] - r[k]) <= tol * scale):
                 return "%s = %.17g on %d processes, %.17g on one (rel. diff %.3g > %.1g)" % (k, d[k], n, r[k], abs(d[k] - r[k]) / scale, tol)
+        # base splitter (join/split): the joined vector is the undecomposed one, the input is left alone, split inverts join
+        for k, ref in (("join_norm", "int_norm"), ("join_norm2", "int_norm"), ("int_norm_after_join", "int_norm"), ("aint_norm_after_join", "aint_norm")) if case.get("splitter") else ():
+            if not (abs(d[k] - d[ref]) <= 1e-12 * max(abs(d[ref]), 1e-300)):
+                return "%s = %.17g differs from %s = %.17g of the same run on %d processes" % (k, d[k], ref, d[ref], n)
+        if case.get("splitter") and not (d["split_err"] <= 1e-13 * max(d["maxabs"], 1e-300)):
+            return "split(join(v)) differs from v by %.3g (max |v| = %.3g) on %d processes" % (d["split_err"], d["maxabs"], n)
         if solver == "jacobi" and abs(d["iters"] - r["iters"]) > 2:
             return "PCG-Jacobi needs %d iterations on %d processes, %d on one" % (d["iters"], n, r["iters"])
         if d["true_res"] > 1e-8 * max(d["def_init"], 1e-300):
@@ -117,9 +123,11 @@ def main():
         if draw(st.booleans()): extra += ["--parti-rank-elems", str(draw(st.sampled_from([1, 2, 4])))]
         sync = draw(st.integers(min_value=0, max_value=10 ** 6)) if draw(st.booleans()) else 0
         if sync: extra += ["--sync-seed", str(sync)]
+        splitter = (not layered) and draw(st.booleans())   # kept base levels exist for single-layered hierarchies only
+        if splitter: extra += ["--splitter"]
         delay = draw(st.sampled_from([0, 0, 2000, 20000]))
         if delay: extra += ["--delay-us", str(delay)]
-        return {"mesh": mesh, "shape": shape, "space": space, "n": n, "levels": levels, "solver": solver, "extra": extra, "layered": layered, "parti": pt, "sync": bool(sync), "delay": delay}
+        return {"mesh": mesh, "shape": shape, "space": space, "n": n, "levels": levels, "solver": solver, "extra": extra, "layered": layered, "parti": pt, "sync": bool(sync), "delay": delay, "splitter": splitter}
 
     def body(case):
         stats["evaluations"] += 1
@@ -127,7 +135,7 @@ def main():
         nt = case["n"] >= 2 and not case.pop("_skipped", False)
         if nt:
             stats["nontrivial"] += 1; stats["hashes"].add(hashlib.sha1(json.dumps(case, sort_keys=True).encode()).hexdigest()[:16])
-        for lab in ("n:%d" % case["n"], "shape:" + case["shape"], "space:" + case["space"], "solver:" + case["solver"], "parti:" + case["parti"], "layered" if case["layered"] else "single-layer", "msg-order:permuted" if case["sync"] else "msg-order:arrival", "delay:%d" % case["delay"]):
+        for lab in ("n:%d" % case["n"], "shape:" + case["shape"], "space:" + case["space"], "solver:" + case["solver"], "parti:" + case["parti"], "layered" if case["layered"] else "single-layer", "msg-order:permuted" if case["sync"] else "msg-order:arrival", "splitter:join+split" if case.get("splitter") else "splitter:off", "delay:%d" % case["delay"]):
             stats["classes"][lab] = stats["classes"].get(lab, 0) + 1
         if len(stats["samples"]) < 8 and nt:
             stats["samples"].append({"label": "n:%d" % case["n"], "case": case})
